@@ -23,6 +23,7 @@ EXPLANATION += ' Added after the seeded-change rounds: ' + 'D2 also: multi-dimen
 EXPLANATION += ' Added in the third session (round-3 seeds and the findings they led to): ' + 'D6: the iteration count of the stepped parallel_for and the split point of blocked_range are computed without adding two independently full-range quantities (interval evaluation, bounds linear in MAX, under the dominating guards).'
 EXPLANATION += ' Added in the fourth round of seeded changes: ' + "D7: every step expression of range_vector's ring indices is evaluated on every slot number with C++ promotion semantics: push and pop steps are cyclic permutations and pop_back inverts the push step - for the default capacity and for __TBB_RANGE_POOL_CAPACITY=6."
 EXPLANATION += ' Added in the fifth round: ' + 'D1 also: the grain size of a blocked_range is only compared with the size of the range, never an operand of arithmetic.'
+EXPLANATION += ' D1 also: blocked_range2d / 3d / nd_range never choose a dimension that is not divisible for the split - the decision procedure of do_split (helpers inlined) is enumerated over every assignment of "dimension divisible" and of the floating-point ratio comparisons (free: they may round either way); the comparator of blocked_nd_range never ranks a non-divisible dimension above a divisible one.'
 ASSUMPTIONS = ['ranges are recognised as classes with an is_divisible() member and a constructor taking split/proportional_split',
                'only instantiations written in drivers/algorithms.cpp are analysed']
 ND = ['exactly-once coverage and disjointness for all (begin,end,grain)', 'chunk-size bounds', 'proportional-split rounding',
